@@ -439,12 +439,15 @@ class Engine:
 
     # ---------------------------------------------------------------------------------------- loops
     def assigned_names(self, body):
-        names = set()
+        """(names rebound by plain assignment / loop targets, names that are only targets of augmented assignments)"""
+        rebound, aug = set(), set()
         for n in body:
+            aug_targets = set()
             for x in ast.walk(n):
-                if isinstance(x, ast.Name) and isinstance(x.ctx, ast.Store): names.add(x.id)
-                if isinstance(x, ast.AugAssign) and isinstance(x.target, ast.Name): names.add(x.target.id)
-        return names
+                if isinstance(x, ast.AugAssign) and isinstance(x.target, ast.Name): aug.add(x.target.id); aug_targets.add(id(x.target))
+            for x in ast.walk(n):
+                if isinstance(x, ast.Name) and isinstance(x.ctx, ast.Store) and id(x) not in aug_targets: rebound.add(x.id)
+        return rebound, aug - rebound
 
     def mutated_roots(self, body, st):
         """roots possibly mutated by the loop body: over-approximation = every root reachable from a name that occurs in the body
@@ -578,17 +581,16 @@ class Engine:
         def inv(state, k): return spec.inv(ctx, self.view(state), k)
         self.oblige(st, name, 'init', And(inv(st, lo)))
         # havoc
-        h = st.clone(); assigned = self.assigned_names(s.body)
+        h = st.clone(); assigned, aug_only = self.assigned_names(s.body)
         for r in mut: h.store[r] = FreshConst(h.types[r].sort(), 'h')
-        for n in assigned:
+        for n in assigned | aug_only:
             if n in h.env:
                 v = h.env[n]
                 if isinstance(v, PMaybe): v = v.val
                 if isinstance(v, PV): h.env[n] = PV(v.t, FreshConst(v.t.sort(), 'h_' + n), v.none if v.none is False else FreshConst(BoolSort(), 'hn'))
-                elif isinstance(v, PRef):
+                elif isinstance(v, PRef) and n in assigned:
                     # the name may be rebound to another object: havoc by value into a fresh frozen root
                     h.env[n] = self.from_term(h, v.t, FreshConst(v.t.sort(), 'h_' + n), frozen=True)
-                elif isinstance(v, PNone): h.env[n] = PMaybe(BoolVal(False), PNone()) if False else v
         k = FreshConst(IntSort(), 'k')
         self.obls.append(Obl('%s#canary.%s' % (self.fname, name), h.pc + [lo <= k, k <= hi, inv(h, k)], BoolVal(False), kind='canary'))
         body = h.clone(); body.pc += [lo <= k, k < hi, inv(body, k)]
